@@ -91,7 +91,7 @@ def main():
     ms = [m for m in ms if not any(s in src[m['line'] - 1] for s in SKIP_LINE)]
     random.Random(1).shuffle(ms)
     ms = ms[:mx]
-    outdir = os.path.join(VERIF, '.scratch', 'mut')
+    outdir = os.path.join(VERIF, '.scratch', os.environ.get('MUTDIR', 'mut'))
     os.makedirs(outdir, exist_ok=True)
     outp = os.path.join(outdir, '%s.jsonl' % prop)
     print('%d mutants of %s for %s' % (len(ms), rel, prop), flush=True)
